@@ -73,6 +73,8 @@ package apptest
 //@   site fmt.Errorf.5 assert !t.OutputPanic && t.Output != "" && expect != got && err == nil
 //@   site wazero.BuildModule.2 assert t.OutputPanic && (hp(got, "panic: "+expect) || firstError != nil)
 //   the package is reported ok only when no failure was recorded
-//@   site fmt.Printf.12 assert firstError == nil
+//@   site fmt.Printf.16 assert firstError == nil
+//   and FAIL is printed (followed by exit status 1) only when one was
+//@   site fmt.Printf.15 assert firstError != nil
 //@   noframe
 //@   property C30
